@@ -380,10 +380,10 @@ pub fn spell_into(v: &Val, rng: &mut Rng, level: u8, out: &mut Vec<u8>) {
                 ws(rng, level, out);
             }
             if level >= 2 && !ms.is_empty() && rng.chance(1, 6) {
-                // a producer that writes a member twice: the same name with the same value
-                // once more at the end (whichever of the two a reader keeps, the object
-                // means the same)
-                let (k, x) = &ms[rng.below(ms.len())];
+                // a producer that writes a member twice: the last member once more, same
+                // name, same value (whichever of the two a reader keeps, and whichever
+                // place it gives it, the object is the same)
+                let (k, x) = &ms[ms.len() - 1];
                 out.push(b',');
                 spell_string(k, rng, level, out);
                 out.push(b':');
